@@ -1,6 +1,6 @@
 """Which rules exist, which properties are claimed, their floors and evidence texts."""
 
-RULE_MODULES = ['descent', 'null', 'live', 'gate', 'alloc', 'immobile', 'reset', 'pool', 'stale', 'layer', 'twin', 'listsearch', 'steps', 'segflow', 'unchecked', 'panicsite', 'links', 'entity', 'inorder', 'progress']
+RULE_MODULES = ['descent', 'null', 'live', 'gate', 'alloc', 'immobile', 'reset', 'pool', 'stale', 'layer', 'twin', 'listsearch', 'steps', 'segflow', 'unchecked', 'panicsite', 'links', 'entity', 'inorder', 'progress', 'sizing']
 
 # rules whose instance set legitimately differs between debug and release-like MIR
 CONFIG_DEPENDENT_RULES = {'PANICSITE'}
@@ -125,10 +125,13 @@ NULL's exceptions are red-black shape invariants, and the structural checks that
 copies of every core function agree, mirror twins and mirrored arms are mirror images, guarded effects are left/right
 symmetric) are part of this check: a repair arm that deviates from its twin is reported here as well [TWIN]; no loop of
 the library has exit conditions that nothing in the loop can change (a cursor no longer advanced, a removal dropped from a
-purge loop: the definite-hang pattern) [PROGRESS]. Not decided: termination in general (the repair recursion, loops whose
-conditions do change but need not converge), arithmetic in the seg layout (C14).""",
+purge loop: the definite-hang pattern) [PROGRESS]; the segment tree allocates one list more than the position its own
+mask builders compute for the stored domain maximum - allocation and addressing evaluate, as linear forms over the
+layout's fields with the private helpers inlined, to the same mapping of the same endpoint [SIZING]. Not decided:
+termination in general (the repair recursion, loops whose conditions do change but need not converge), the arithmetic of
+the seg layout itself (that the last bucket is the highest position a mask names, that it stays below 63: C14 / C15).""",
      ["C02 for the reasoned exceptions (inner child of a rotated node, sibling of a double-black node, non-root has a parent); its structural part is re-checked here through TWIN"],
-     {'NULL': 190, 'PROVENANCE': 150, 'STALE': 20, 'UNCHECKED': 14, 'PANICSITE': 60, 'TWIN': 70, 'PROGRESS': 30})
+     {'NULL': 190, 'PROVENANCE': 150, 'STALE': 20, 'UNCHECKED': 14, 'PANICSITE': 60, 'TWIN': 70, 'PROGRESS': 30, 'SIZING': 1})
 
 prop('C13', """
 Static analysis (MIR/SSA). Decided clauses so far for the expiring-key list: the purge keeps exactly
